@@ -134,6 +134,9 @@ func cmdCheck(argv []string) int {
 	for _, ln := range spec.Lemmas {
 		eng.addLemma(ln)
 	}
+	// vacuity guard for the background theory: the axioms used by this run must not be contradictory
+	eng.obls = append(eng.obls, &Obligation{Name: "axioms#cover:consistent", Kind: "cover", Fn: "axioms", Pos: "/verif/govc/solve.go, /verif/specs",
+		Desc: "background axioms (strings, sequences, spec functions) are not contradictory", Goal: "false", Cover: true, AllAxioms: true})
 	timeout := 10 * time.Second
 	if spec.Timeout > 0 {
 		timeout = time.Duration(spec.Timeout) * time.Second
